@@ -1,6 +1,7 @@
 package main
 
 import (
+	"crypto/sha256"
 	"encoding/json"
 	"fmt"
 	"math/big"
@@ -249,6 +250,28 @@ func runGadgetReplay(g *gadgetReplay) (bool, string) {
 			}
 			return orig(m, in, out)
 		}))
+	}
+	// commitments: outside a prover the commitment hint is a placeholder; any function of the committed
+	// values serves as the Fiat-Shamir challenge (a hash here)
+	commitHint := func(_ *big.Int, in []*big.Int, out []*big.Int) error {
+		h := sha256.New()
+		for _, v := range in {
+			h.Write(v.Bytes())
+			h.Write([]byte{0})
+		}
+		out[0].SetBytes(h.Sum(nil))
+		out[0].Mod(out[0], R)
+		return nil
+	}
+	switch cm := cs.GetCommitments().(type) {
+	case constraint.Groth16Commitments:
+		for _, c := range cm {
+			opts = append(opts, solver.OverrideHint(c.HintID, commitHint))
+		}
+	case constraint.PlonkCommitments:
+		for _, c := range cm {
+			opts = append(opts, solver.OverrideHint(c.HintID, commitHint))
+		}
 	}
 	err = cs.IsSolved(w, opts...)
 	if err != nil {
